@@ -738,7 +738,8 @@ func parseNestedStatementCombination(stmtToAttachTo *tree.Statement, nestedCombo
 
 		stmt, errStmt := ParseStatement(oldValue[strings.Index(oldValue, LEFT_BRACE)+1 : strings.LastIndex(oldValue, RIGHT_BRACE)])
 		if errStmt.ErrorCode != tree.PARSING_NO_ERROR {
-			return stmt[0].Entry.(*tree.Statement), errStmt
+			// Failed parsing does not return a statement node (accessing the first element would panic)
+			return &tree.Statement{}, errStmt
 		}
 		return stmt[0].Entry.(*tree.Statement), tree.ParsingError{ErrorCode: tree.PARSING_NO_ERROR}
 	})
